@@ -188,7 +188,7 @@ def main(tier: str, seed: int) -> int:
     # restore the default wireless capacities (the registry is process-global)
     # 4. TLC judges every trace
     res = tlc.validate("LinkTrace", traces)
-    common.judge_traces(chk, "Link", traces, res, sig_fn)
+    common.judge_traces(chk, "Link", traces, res, sig_fn, selftest="LinkTrace")
     for tr in traces[:3]:
         chk.sample({"cfg": tr["cfg"], "meta": tr.get("meta"), "events": tr["ev"][:12]})
     chk.cov["frame_sizes_bytes"] = sizes
